@@ -8,6 +8,7 @@
 (*                                        relation between the chunk and what the pump wrote  *)
 (*   other{side}                          bytes written by a goroutine that is not the pump   *)
 (*   stop                                 filter.StopTransferringFiles called                 *)
+(*   xfer{how,ok}                         a history ended; ok = files arrived intact          *)
 (*   mode{idle}                           the driver saw IsTransferringFiles()==false, the    *)
 (*                                        handler goroutine gone, the server side returned    *)
 (*   exit{child,wrapper,sig,outok}        process level: status of the wrapped command, of    *)
@@ -60,6 +61,10 @@ TOther == IsEvent("other") /\ (~FullyIdle \/ SessionStarting) /\ UNCHANGED vars
 
 TStop == IsEvent("stop") /\ StopAPI
 
+(* a transfer against a cooperative server with nothing injected (the driver's "success" plan) *)
+(* delivered its files: the pumps handed every byte of the session to the transfer unharmed    *)
+TXfer == IsEvent("xfer") /\ (Ev.how = "success" => Ev.ok) /\ UNCHANGED vars
+
 TMode == IsEvent("mode") /\ Ev.idle /\ ModePass /\ pcOut = "read" /\ pcIn = "read" /\ UNCHANGED vars
 
 (* process level: observed values are taken over, ExitPassed / LastWordsDelivered judge them. *)
@@ -71,13 +76,13 @@ TExit == /\ IsEvent("exit")
          /\ lastWords' = Ev.outok
          /\ UNCHANGED <<opts, hvars, zs, dvars, logging, ovars, ivars, cvars>>
 
-TSilent == /\ More /\ Ev.e \in {"doneOut", "doneIn", "other", "stop", "mode", "feedOut", "feedIn"}
+TSilent == /\ More /\ Ev.e \in {"doneOut", "doneIn", "other", "stop", "xfer", "mode", "feedOut", "feedIn"}
            /\ \/ HRefuse \/ HChooseFail \/ HCAS \/ (\E how \in Hows : HEnd(how)) \/ HExit \/ PromptEnd
               \/ ZStop \/ ZCleanup
               \/ DragAbort \/ DragInterrupt \/ DragCommand \/ DragReset
            /\ UNCHANGED l
 
-TNext == TReset \/ TFeedOut \/ TDoneOut \/ TFeedIn \/ TDoneIn \/ TOther \/ TStop \/ TMode \/ TExit \/ TSilent
+TNext == TReset \/ TFeedOut \/ TDoneOut \/ TFeedIn \/ TDoneIn \/ TOther \/ TStop \/ TXfer \/ TMode \/ TExit \/ TSilent
 
 TSpec == TInit /\ [][TNext]_tvars
 
